@@ -60,7 +60,7 @@ Fixpoint parse_steps (fuel : nat) (n : nat) (l : list Z) : list rstep * list Z :
 Definition obs_z (r : res fb Z) : Z := match r with Val z _ => z | Panic _ => PANIC end.
 Definition post (SIZE : Z) (s : fb) : list Z :=
   MST :: obs_z (len chk s) :: obs_z ((v <- writable ;; ret (vlen v)) s)
-      :: match readable s with Val l _ => enc_bytes l | Panic _ => [PANIC] end.
+      :: match readable s with Val l _ => enc_bytes l | Panic _ => [PANIC] end ++ (-5 :: enc_bytes (mem s)).
 
 Definition enc_io_z (r : io Z) : list Z := match r with Ok n => [0; n] | Err k => [1; enc_ekind k] end.
 Definition enc_obs (v : obs) : list Z :=
@@ -152,6 +152,17 @@ Definition run_api (l : list Z) : list Z :=
       else if ctor =? 3 then (default SIZE, t)
       else (new SIZE, t) in
     post SIZE s0 ++ run_ops SIZE (S (length r)) s0 r
+  | _ => []
+  end.
+
+(* STEP SIZE ri wi mem[SIZE] op : one operation from an explicitly given state (step-wise correspondence) *)
+Definition run_apistep (l : list Z) : list Z :=
+  match l with
+  | SIZE :: ri :: wi :: t =>
+    let '(m, r) := take_n SIZE t in
+    let s := {| mem := m; read_index := ri; write_index := wi |} in
+    let '((out, s'), _) := run_op SIZE (S (length r)) s r in
+    MOP :: out ++ post SIZE s'
   | _ => []
   end.
 End R.
